@@ -46,6 +46,7 @@ type Contract struct {
 	Requires  []*Clause
 	Ensures   []*Clause
 	Exsures   []*Clause
+	Recovers  []*Clause // must hold at every normal return that was reached by recovering from a panic
 	Preserves []*Clause
 	Uses      []string  // names of axioms the proof of this function may assume
 	Keeps     []string  // Go type expressions: heap components of these map/slice types are not modified even under "modifies *"
@@ -64,7 +65,7 @@ type Contract struct {
 	Lemma     bool
 }
 
-var kwRe = regexp.MustCompile(`^(axiom|uses|define|implements|preserves|keeps|callsite|func|requires|ensures|exsures|modifies|nopanic|assumed|inline|loop|decreases|params|lemma)\b`)
+var kwRe = regexp.MustCompile(`^(recovers|axiom|uses|define|implements|preserves|keeps|callsite|func|requires|ensures|exsures|modifies|nopanic|assumed|inline|loop|decreases|params|lemma)\b`)
 
 // parseContracts reads all zz_verif_contracts.go files below repo.
 func parseContracts(repo string) (map[string]*Contract, []string, error) {
@@ -181,7 +182,7 @@ func parseContractFile(path, relpkg string, out map[string]*Contract) error {
 			}
 			macros[relpkg+"."+m.Name] = m
 			return nil
-		case "requires", "ensures", "exsures", "modifies", "decreases", "preserves", "callsite":
+		case "requires", "ensures", "exsures", "modifies", "decreases", "preserves", "callsite", "recovers":
 			if p.kind == "modifies" && text == "*" {
 				cur.ModAll = true
 				return nil
@@ -223,6 +224,9 @@ func parseContractFile(path, relpkg string, out map[string]*Contract) error {
 			case "exsures":
 				c.Idx = len(cur.Exsures)
 				cur.Exsures = append(cur.Exsures, c)
+			case "recovers":
+				c.Idx = len(cur.Recovers)
+				cur.Recovers = append(cur.Recovers, c)
 			case "preserves":
 				c.Idx = len(cur.Preserves)
 				cur.Preserves = append(cur.Preserves, c)
